@@ -1260,6 +1260,35 @@ func contentCases(enc *json.Encoder, rep *vh.Report) {
 		_ = enc.Encode(sk)
 		rep.Case(fmt.Sprintf("depth|%d", depth), true)
 		rep.Class("content:depth")
+		// where the library stops resolving it leaves null and ONE error whose path is the position of that null: as long
+		// as the chain of keys down to it, no longer (C06; these requests have no arguments and no fragments)
+		if es, _ := res["errors"].([]interface{}); len(es) > 0 {
+			if len(es) != 1 {
+				rep.Mismatch(vh.Mismatch{Case: map[string]interface{}{"request": sk["text"], "aspect": "errors"}, What: fmt.Sprintf("errors: %d errors for one position that is not resolved", len(es))})
+			}
+			for _, e := range es {
+				em, _ := e.(map[string]interface{})
+				path, _ := em["path"].([]interface{})
+				var cur interface{} = res["data"]
+				used := 0
+				for _, el := range path {
+					m, isMap := cur.(map[string]interface{})
+					k, isKey := el.(string)
+					if !isMap || !isKey {
+						break
+					}
+					cur = m[k]
+					used++
+					if cur == nil {
+						break
+					}
+				}
+				if used != len(path) || cur != nil {
+					rep.Mismatch(vh.Mismatch{Case: map[string]interface{}{"request": sk["text"], "aspect": "errors", "path": path},
+						What: fmt.Sprintf("errors: the path of the depth error has %d elements, the null it reports is reached after %d of them", len(path), used)})
+				}
+			}
+		}
 	}
 	var strs []string
 	for _, a := range contentChars {
